@@ -6,6 +6,7 @@ import (
 	"crypto/ecdsa"
 	"crypto/ed25519"
 	"crypto/elliptic"
+	"crypto/sha256"
 	"encoding/json"
 	"flag"
 	"fmt"
@@ -13,6 +14,7 @@ import (
 	"math/rand"
 	"os"
 	"runtime"
+	"strings"
 	"sync"
 	"sync/atomic"
 	"time"
@@ -21,7 +23,6 @@ import (
 	ariesdid "github.com/trustbloc/did-go/doc/did"
 	"github.com/trustbloc/did-go/doc/did/endpoint"
 	vdrapi "github.com/trustbloc/did-go/vdr/api"
-	"github.com/trustbloc/sidetree-go/pkg/vdr/sidetreelongform"
 	"github.com/trustbloc/sidetree-go/pkg/api/operation"
 	"github.com/trustbloc/sidetree-go/pkg/api/protocol"
 	"github.com/trustbloc/sidetree-go/pkg/canonicalizer"
@@ -32,6 +33,7 @@ import (
 	"github.com/trustbloc/sidetree-go/pkg/patch"
 	"github.com/trustbloc/sidetree-go/pkg/util/ecsigner"
 	"github.com/trustbloc/sidetree-go/pkg/util/pubkey"
+	"github.com/trustbloc/sidetree-go/pkg/vdr/sidetreelongform"
 	"github.com/trustbloc/sidetree-go/pkg/vdr/sidetreelongform/dochandler"
 	"github.com/trustbloc/sidetree-go/pkg/vdr/sidetreelongform/dochandler/protocol/nsprovider"
 	"github.com/trustbloc/sidetree-go/pkg/vdr/sidetreelongform/dochandler/protocol/verprovider"
@@ -178,6 +180,7 @@ func main() {
 	applier := operationapplier.New(cfg, parser, composer)
 	// two method contexts: the configuration in which a shared context slice would have spare capacity
 	transformer := didtransformer.New(didtransformer.WithBase(true), didtransformer.WithMethodContext([]string{"https://ctx.example/1", "https://ctx.example/2"}))
+	plainTransformer := didtransformer.New()
 	handler, err := dochandler.New("did:ion")
 	if err != nil {
 		panic(err)
@@ -277,6 +280,22 @@ func main() {
 			return fmt.Sprintf("each call answered as on its own: %.40s", alone[0])
 		}},
 		{"process", func(i int) string { return snap(handler.ProcessOperation(reqs[i])) }},
+		{"transform-absolute-ids", func(i int) string {
+			// a shared transformer made without the base option writes the DID into every nested id
+			d, _ := document.FromBytes([]byte(fmt.Sprintf(`{"publicKey":[{"id":"k%d","type":"JsonWebKey2020","publicKeyJwk":{"kty":"EC","crv":"P-256","x":"PUymIqdtF_qxaAqPABSw-C-owT1KYYQbsMKFM-L9fJA","y":"nM84jDHCMOTGTh_ZdHq4dBBdo4Z5PkEOW9jA8z8IsGc"},"purposes":["authentication","assertionMethod","keyAgreement"]},{"id":"g%d","type":"JsonWebKey2020","publicKeyJwk":{"kty":"EC","crv":"P-256","x":"PUymIqdtF_qxaAqPABSw-C-owT1KYYQbsMKFM-L9fJA","y":"nM84jDHCMOTGTh_ZdHq4dBBdo4Z5PkEOW9jA8z8IsGc"}}],"service":[{"id":"s%d","type":"T","serviceEndpoint":"https://svc.example/%d"}]}`, i, i, i, i)))
+			return snap(plainTransformer.TransformDocument(&protocol.ResolutionModel{Doc: d}, protocol.TransformationInfo{"id": fmt.Sprintf("did:ion:EiD%d", i), "published": false}))
+		}},
+		{"canonicalize-deep", func(i int) string {
+			// documents nested thousands of levels (each within the limit of 10 000 on its own)
+			depth := 3000 + 500*(i%7)
+			doc := strings.Repeat(`{"a":[`, depth/2) + fmt.Sprintf("%d", i) + strings.Repeat(`]}`, depth/2)
+			b, e := canonicalizer.MarshalCanonical([]byte(doc))
+			if e != nil {
+				return "ERR:" + e.Error()
+			}
+			h := sha256.Sum256(b)
+			return fmt.Sprintf("%d:%x", len(b), h[:8])
+		}},
 	}
 	// calls that fail (error paths release pooled or cached resources too): made before the
 	// concurrent phase and interleaved with it
